@@ -198,6 +198,11 @@ def check(run: Run) -> None:
         from . import c18 as c18_
         R.share(run, "C17.i", c18_, ["C18.e"])
 
+    with run.obligation("C17.j", "K1", "a conflating push source never forgets that it holds undelivered data: `pending` stays set once a send modified the accumulator, whatever later "
+                        "no-op sends do, until the value is emitted (shared with C16.b2) - the wake-up of the real-time loop for that data depends on it"):
+        from . import c16
+        R.share(run, "C17.j", c16, ["C16.b2"])
+
 
 VARIANTS = [
     {"id": "g-seed-C17-6-no-stop-test-after-advance", "expect": "C17.g", "edits": [{"file": EXEC, "find": "                if (state.stop_requested.load(std::memory_order_acquire) ||\n                    evaluation_time == MAX_DT ||\n                    evaluation_time >= state.end_time)\n                {\n                    break;\n                }", "replace": "                if (evaluation_time == MAX_DT || evaluation_time >= state.end_time) { break; }"}]},
